@@ -1,17 +1,23 @@
+// c17: correspondence harness of property C17 (system-contract staking / governance adapters).
+//
+//	-mode hook : the real PostTxProcessing hooks on generated receipts with a recording message router
+//	-mode app  : Ethereum transactions through DeliverTx on a real application (three bonded validators)
+//
+// One JSON line per case: the input spec and the projected observables.
 package main
 
 import (
 	"encoding/json"
-	"fmt"
-	"math/big"
-	"os"
+	"flag"
 	"strings"
-	"time"
 
 	ethabi "github.com/ethereum/go-ethereum/accounts/abi"
+	"github.com/ethereum/go-ethereum/common"
 
 	govcontract "github.com/teleport-network/teleport/syscontracts/gov"
 	stakingcontract "github.com/teleport-network/teleport/syscontracts/staking"
+
+	"verifharness/hlib"
 )
 
 var (
@@ -27,58 +33,85 @@ func init() {
 	must(err)
 }
 
-func smoke() {
-	t0 := time.Now()
-	e := NewEnv()
-	fmt.Println("setup", time.Since(t0))
-	pre := e.Snapshot(true)
-	data, err := stakingABI.Pack("delegate", e.valOper[0].String(), big.NewInt(12345))
-	must(err)
-	t1 := time.Now()
-	out := e.SendEth(e.eoas[0], &stakingAddr, data, 2_000_000)
-	fmt.Println("tx", time.Since(t1), out.Class, out.VmErr, out.Log, len(out.Logs))
-	post := e.Snapshot(true)
-	bz, _ := json.Marshal(pre)
-	fmt.Println(string(bz))
-	bz, _ = json.Marshal(post)
-	fmt.Println(string(bz))
-	// nested through proxy 0
-	payload := append([]byte{0}, stakingAddr.Bytes()...)
-	payload = append(payload, data...)
-	out = e.SendEth(e.eoas[1], &e.proxies[0], payload, 2_000_000)
-	fmt.Println("proxy tx", out.Class, out.VmErr, out.Log, len(out.Logs))
-	// failing: unknown validator
-	data, _ = stakingABI.Pack("delegate", "nonsense", big.NewInt(5))
-	out = e.SendEth(e.eoas[0], &stakingAddr, data, 2_000_000)
-	fmt.Println("bad val", out.Class, out.VmErr, out.Log, len(out.Logs))
-	// undelegate huge
-	data, _ = stakingABI.Pack("undelegate", e.valOper[0].String(), new(big.Int).Sub(new(big.Int).Lsh(big.NewInt(1), 256), big.NewInt(1)))
-	out = e.SendEth(e.eoas[0], &stakingAddr, data, 2_000_000)
-	fmt.Println("undelegate huge", out.Class, out.VmErr, out.Log, len(out.Logs))
-	// emitter look-alike
-	ev := stakingABI.Events["Delegated"]
-	evData, _ := ev.Inputs.Pack(e.eoas[2].addr, e.valOper[0].String(), big.NewInt(777))
-	pl := append([]byte{1}, ev.ID.Bytes()...)
-	pl = append(pl, evData...)
-	out = e.SendEth(e.eoas[0], &e.emitter, pl, 2_000_000)
-	fmt.Println("emitter", out.Class, out.VmErr, out.Log, len(out.Logs), out.Logs[0].Address, out.Logs[0].Topics)
-	// delegatecall into staking
-	data, _ = stakingABI.Pack("delegate", e.valOper[1].String(), big.NewInt(999))
-	payload = append([]byte{1}, stakingAddr.Bytes()...)
-	payload = append(payload, data...)
-	out = e.SendEth(e.eoas[1], &e.proxies[1], payload, 2_000_000)
-	fmt.Println("delegatecall", out.Class, out.VmErr, out.Log, len(out.Logs), out.Logs[0].Address)
-	t2 := time.Now()
-	e.NextBlock(5 * time.Second)
-	fmt.Println("block", time.Since(t2))
-	post = e.Snapshot(true)
-	bz, _ = json.Marshal(post)
-	fmt.Println(string(bz))
-}
-
 func main() {
-	if len(os.Args) > 1 && os.Args[1] == "smoke" {
-		smoke()
-		return
+	mode := flag.String("mode", "hook", "hook | app")
+	seed := flag.Uint64("seed", 1, "PRNG seed")
+	n := flag.Int("n", 50, "number of generated cases")
+	from := flag.Int("from", 0, "index of the first generated case (sharding)")
+	steps := flag.Int("steps", 10, "app mode: max extra steps per history")
+	in := flag.String("in", "", "replay: file of specs (JSON lines) instead of generating")
+	out := flag.String("out", "/dev/stdout", "output file (JSON lines)")
+	flag.Parse()
+
+	w := hlib.NewOut(*out)
+	defer w.Close()
+	root := hlib.NewRand(*seed)
+
+	switch *mode {
+	case "hook":
+		h := NewHookEnv()
+		var valid []string
+		for _, v := range h.env.valOper {
+			valid = append(valid, v.String())
+		}
+		others := append([]common.Address{}, h.env.proxies...)
+		others = append(others, h.env.emitter, h.env.eoas[0].addr, common.Address{})
+		var specs []HookSpec
+		if *in != "" {
+			hlib.ReadLines(*in, func(line []byte) {
+				var wrap struct {
+					Spec *HookSpec `json:"spec"`
+				}
+				if err := json.Unmarshal(line, &wrap); err == nil && wrap.Spec != nil {
+					specs = append(specs, *wrap.Spec)
+					return
+				}
+				var s HookSpec
+				must(json.Unmarshal(line, &s))
+				specs = append(specs, s)
+			})
+		} else {
+			for i := *from; i < *from+*n; i++ {
+				specs = append(specs, genHookSpec(root.Fork(uint64(i)), i, valid, others))
+			}
+		}
+		w.Emit(map[string]interface{}{"env": h.env.info()})
+		for _, s := range specs {
+			w.Emit(h.Run(s))
+		}
+	case "app":
+		var specs []Spec
+		if *in != "" {
+			hlib.ReadLines(*in, func(line []byte) {
+				var wrap struct {
+					Spec *Spec `json:"spec"`
+				}
+				if err := json.Unmarshal(line, &wrap); err == nil && wrap.Spec != nil {
+					specs = append(specs, *wrap.Spec)
+					return
+				}
+				var s Spec
+				must(json.Unmarshal(line, &s))
+				specs = append(specs, s)
+			})
+		} else {
+			e := NewEnv()
+			var valStr []string
+			for _, v := range e.valOper {
+				valStr = append(valStr, v.String())
+			}
+			var eoas []common.Address
+			for _, x := range e.eoas {
+				eoas = append(eoas, x.addr)
+			}
+			for i := *from; i < *from+*n; i++ {
+				specs = append(specs, genSpec(root.Fork(uint64(1000000+i)), i, *steps, valStr, eoas))
+			}
+		}
+		for _, s := range specs {
+			w.Emit(runSpec(s))
+		}
+	default:
+		panic("unknown mode")
 	}
 }
